@@ -160,7 +160,14 @@ Case eval(const uint8_t* d, size_t n, bool force_render) {
     else g.distinct_capped = true;
     if (c.want_render && g.samples.size() < kMaxSamples && !c.render.empty()) g.samples.push_back(c.render);
   }
-  if (!c.ok) g.failures++;
+  if (!c.ok) {
+    g.failures++;
+    // triage aid: VERIF_DUMP_FAILS=<file> collects the first failures of a run
+    static const char* dump = getenv("VERIF_DUMP_FAILS");
+    if (dump && g.failures <= 20000) {
+      if (FILE* f = fopen(dump, "a")) { fprintf(f, "%s\n", c.failure.c_str()); fclose(f); }
+    }
+  }
   g_cur_data = nullptr;
   return c;
 }
@@ -276,6 +283,7 @@ int main(int argc, char** argv) {
       auto v = *gen;
       Case c = eval(v.data(), v.size(), false);
       if (!c.ok) {
+        if (getenv("VERIF_KEEP_GOING")) return;  // triage aid, never set by ./check
         record_failure(v.data(), v.size(), c, "rcfail");
         RC_FAIL(c.failure);
       }
